@@ -32,9 +32,12 @@ import (
 	"github.com/elastos/Elastos.ELA/common"
 	"github.com/elastos/Elastos.ELA/common/config"
 	"github.com/elastos/Elastos.ELA/core/checkpoint"
+	ctypes "github.com/elastos/Elastos.ELA/core/types/common"
+	"github.com/elastos/Elastos.ELA/core/types/outputpayload"
 	"github.com/elastos/Elastos.ELA/mempool"
 	crstate "github.com/elastos/Elastos.ELA/cr/state"
 	"github.com/elastos/Elastos.ELA/dpos/state"
+	"github.com/elastos/Elastos.ELA/wallet"
 )
 
 type codec interface {
@@ -58,6 +61,7 @@ var kinds = []kind{
 	{"cr.Checkpoint", func() codec {
 		return &crstate.Checkpoint{KeyFrame: *crstate.NewKeyFrame(), StateKeyFrame: *crstate.NewStateKeyFrame(), ProposalKeyFrame: *crstate.NewProposalKeyFrame()}
 	}, true},
+	{"wallet.CoinsCheckPoint", func() codec { return wallet.NewCoinCheckPoint() }, true},
 }
 
 func kindOf(name string) *kind {
@@ -159,6 +163,22 @@ func populate(r *hx.Rand, v reflect.Value, depth int, path string) {
 		populate(r, p.Elem(), depth+1, path)
 		v.Set(p)
 	case reflect.Struct:
+		if t == coinType {
+			// a coin's output carries an interface payload whose layout depends on the coin's
+			// transaction version: built by the wire generators (every output payload type)
+			ver := []byte{0, 1, 8, 9, 9, 9, 10, r.Byte()}[r.Intn(8)]
+			out := wire.GenOutput(r, ver >= 9)
+			if vo, ok := out.Payload.(*outputpayload.VoteOutput); ok && vo.Version < outputpayload.VoteProducerAndCRVersion {
+				// a version-0 vote output has no per-candidate amounts on the wire
+				for i := range vo.Contents {
+					for j := range vo.Contents[i].CandidateVotes {
+						vo.Contents[i].CandidateVotes[j].Votes = 0
+					}
+				}
+			}
+			v.Set(reflect.ValueOf(wallet.Coin{TxVersion: ctypes.TransactionVersion(ver), Output: out, Height: uint32(r.U64())}))
+			return
+		}
 		for i := 0; i < t.NumField(); i++ {
 			f := t.Field(i)
 			if skipType(f.Type) || notState[t.String()+"."+f.Name] {
@@ -169,11 +189,14 @@ func populate(r *hx.Rand, v reflect.Value, depth int, path string) {
 	}
 }
 
+var coinType = reflect.TypeOf(wallet.Coin{})
+var outputType = reflect.TypeOf(ctypes.Output{})
+
 // back pointers / caches: not part of the saved state
 var skipPtr = map[string]bool{"state.Arbiters": true, "state.Committee": true, "state.State": true, "sync.RWMutex": true, "sync.Mutex": true}
 // CRInfo is stored in the CR key frames through SerializeUnsigned(CRInfoDIDVersion): the
 // registration signature is deliberately not part of the saved state.
-var notState = map[string]bool{"payload.CRInfo.Signature": true}
+var notState = map[string]bool{"payload.CRInfo.Signature": true, "wallet.CoinsCheckPoint.RWMutex": true}
 
 // ---------------------------------------------------------------- reflection: canonical dump
 
@@ -226,6 +249,13 @@ func dump(b *strings.Builder, v reflect.Value, depth int) {
 		}
 		dump(b, v.Elem(), depth+1)
 	case reflect.Struct:
+		if t == outputType {
+			// follows the payload interface
+			c := reflect.New(t).Elem()
+			c.Set(v)
+			b.WriteString(wire.Dump(c.Interface()))
+			return
+		}
 		b.WriteString(t.Name() + "(")
 		for i := 0; i < t.NumField(); i++ {
 			f := t.Field(i)
@@ -409,6 +439,12 @@ func gen(g *hx.Gen) {
 				}
 			}
 			g.Emit("ckpt %s %s %s", k.name, hx.Hex(b), digest(want))
+			// a damaged file: cut short / one byte changed (no digest: the oracle only asks for no panic
+			// and a stable re-encoding; the model must agree on accept/reject and on the bytes consumed)
+			if i%4 == 0 && len(b) > 0 {
+				g.Emit("ckpt %s %s -", k.name, hx.Hex(b[:r.Intn(len(b))]))
+				g.Emit("ckpt %s %s -", k.name, hx.Hex(wire.Mutate(r, b)))
+			}
 		}
 	}
 	// mempool: pools of 0..4 transactions
